@@ -156,6 +156,31 @@ func c07ScriptSet() [][2][]byte {
 			add(pushAll(sg, k.comp), tp["p2pkh"])
 			add(pushAll([]byte{}, sg, []byte{0x01}, k.comp, []byte{0x01}), []byte{0xae})
 		}
+		// every prefix of a well-formed DER signature and every header byte set to boundary values,
+		// with a hash-type byte appended: the encoding checks must not index past the end
+		der := []byte{0x30, 0x0a, 0x02, 0x03, 0x01, 0x02, 0x03, 0x02, 0x03, 0x04, 0x05, 0x06}
+		var ders [][]byte
+		for n := 0; n <= len(der); n++ {
+			ders = append(ders, append(append([]byte(nil), der[:n]...), 0x41))
+			ders = append(ders, append(append(append([]byte(nil), der[:n]...), 0x00), 0x41))
+		}
+		for pos := 0; pos < len(der); pos++ {
+			for _, v := range []byte{0x00, 0x01, 0x02, 0x03, 0x08, 0x09, 0x0a, 0x0b, 0x20, 0x7f, 0x80, 0xff} {
+				m := append([]byte(nil), der...)
+				m[pos] = v
+				ders = append(ders, append(m, 0x41))
+			}
+		}
+		for _, sg := range ders {
+			add(pushAll(sg, k.comp), []byte{0xac})
+			add(pushAll([]byte{}, sg, []byte{0x01}, k.comp, []byte{0x01}), []byte{0xae})
+		}
+		// scripts that end early or are empty on either side
+		for _, u := range [][]byte{nil, {0x51}, {0x51, 0x6a}, {0x6a}, {0x51, 0x6a, 0x4c}, {0x00, 0x63, 0x6a, 0x68, 0x51}} {
+			for _, l := range [][]byte{nil, {0x51}, {0x6a}, {0x51, 0x6a}, {0x61}} {
+				add(u, l)
+			}
+		}
 		add([]byte{0x4c}, []byte{0x51})
 		add([]byte{0x51}, []byte{0x4e, 0xff, 0xff, 0xff, 0x7f})
 		add([]byte{0x51}, []byte{0x4e, 0xff, 0xff, 0xff, 0xff})
